@@ -43,9 +43,10 @@ def run(tier, seed):
                'exhaustively over every line of every year inside the kernel. Support: real-form scenarios, any internal error '
                'leaving solve() is a dynamic witness; non-trivial = line with at least one reference')
     ck.trusted = ['Coq 8.16.1 kernel + vm_compute', 'tools/gen_forms.py (ast translator, fail-closed) - tied by translator validation',
-                  'coq/FormsRefs.v reference analysis: soundness w.r.t. the interpreter is NOT proved (the analysis and the interpreter '
-                  'share the AST; over-approximation argument: every ERead/EThreshold node is visited, loop variables are widened to '
-                  'their constant source or to an open hole)',
+                  'coq/FormsRefs.v reference analysis: soundness w.r.t. the interpreter is proved for the arithmetic fragment only '
+                  '(Footprint.footprint_complete + C10_footprint_<y>: a line of the fragment evaluates to a value on every store that holds its '
+                  'footprint, and the footprint is among the collected references); for the other lines it is argued (the analysis and the '
+                  'interpreter share the AST; every ERead/EThreshold node is visited, loop variables are widened to their constant source or to an open hole)',
                   'oracles/absent_forms.json: forms deliberately not implemented']
     H = scenarios.habutax_modules()
     summ = catalog.generate(ck, H)
@@ -55,7 +56,7 @@ def run(tier, seed):
     for y, s in summ.items():
         known = [(f['where']['form'], f['where']['line']) for f in findings
                  if f.get('status') == 'open' and f.get('where', {}).get('year') == y]
-        txt = ['From Coq Require Import ZArith QArith List String Bool.', 'From HV Require Import Forms FormsRefs.',
+        txt = ['From Coq Require Import ZArith QArith List String Bool.', 'From HV Require Import Forms FormsRefs Footprint.',
                'From Gen Require Import Forms%d.' % y, 'Import ListNotations.', 'Open Scope string_scope.',
                'Definition decls : decls := %s.' % gen_forms.clist(decls_text(H, y, s)),
                'Definition absent : absent_forms := %s.' % gen_forms.clist([gen_forms.cstr(x) for x in absent[str(y)]]),
@@ -67,7 +68,13 @@ def run(tier, seed):
                'Eval vm_compute in (List.length (flat_map (fun f => flat_map (line_refs []) (f_lines f)) cat), List.length (flat_map f_lines cat)).',
                'Theorem C10_names_ok_%d : names_ok cat decls absent known = true.' % y,
                'Proof. vm_compute. reflexivity. Qed.',
-               'Goal True. idtac "@@PA C10_names_ok_%d". Abort.' % y, 'Print Assumptions C10_names_ok_%d.' % y]
+               'Goal True. idtac "@@PA C10_names_ok_%d". Abort.' % y, 'Print Assumptions C10_names_ok_%d.' % y,
+               # the analysis against the interpreter, on the arithmetic fragment: every name of a line's footprint is a collected reference
+               'Goal True. idtac "@@FOOT". Abort.',
+               'Eval vm_compute in (let cl := footprint_classes cat decls in (List.length (filter (Nat.eqb 1) cl), List.length (filter (Nat.eqb 2) cl), List.length cl)).',
+               'Theorem C10_footprint_%d : footprint_covered cat decls = true.' % y,
+               'Proof. vm_compute. reflexivity. Qed.',
+               'Goal True. idtac "@@PA C10_footprint_%d". Abort.' % y, 'Print Assumptions C10_footprint_%d.' % y]
         files.append((y, known, ck.write_gen('C10_%d.v' % y, '\n'.join(txt) + '\n')))
     res = ck.coqc_many([f for _, _, f in files], timeout=900)
     for y, known, f in files:
@@ -81,6 +88,15 @@ def run(tier, seed):
         if m:
             ck.cov.setdefault('references_analysed', {})[str(y)] = {'references': int(m.group(1)), 'lines': int(m.group(2))}
             ck.count(('refs', y), n=int(m.group(2)))
+        mf = re.search(r'@@FOOT\s*=\s*\((\d+)(?:%nat)?,\s*(\d+)(?:%nat)?,\s*(\d+)', out)
+        if mf:
+            ck.cov.setdefault('footprint_vs_interpreter', {})[str(y)] = {
+                'lines_in_arithmetic_fragment_footprint_covered': int(mf.group(1)), 'footprint_not_covered': int(mf.group(2)), 'lines': int(mf.group(3))}
+            ck.oblige('theorem:C10_footprint_%d (%s lines: every name the interpreter can ask for is a collected reference)' % (y, mf.group(1)),
+                      ok and int(mf.group(2)) == 0, '')
+            if int(mf.group(2)) > 0:
+                ck.violation('C10:%d:footprint' % y, 'ty%d: %s line(s) of the arithmetic fragment read a name that the reference analysis did not collect' % (y, mf.group(2)),
+                             {'kind': 'proof-or-correspondence', 'theorem_or_correspondence': 'C10_footprint_%d' % y}, found=False)
         unknown = [(a, b, n) for (a, b, n) in bad if (a, b) not in known]
         ck.oblige('theorem:C10_names_ok_%d%s' % (y, ' (modulo %d known findings)' % len(known) if known else ''), ok and not unknown,
                   out[-300:] if not ok else '')
